@@ -4,6 +4,7 @@ import (
 	"bufio"
 	"fmt"
 	"io"
+	"os"
 	"os/exec"
 	"strconv"
 	"strings"
@@ -31,7 +32,10 @@ type Solver struct {
 	defined   map[int]bool
 	ufDecl    map[string]bool
 	depth     int // assertion-stack depth we pushed
-	asserted  [][]*Term
+	stack     []*Term
+	CheckCmd  string
+	pcLevel   bool
+	restarted bool
 	TimeoutMs int
 	Queries   [3]int
 	SolverNs  int64
@@ -40,7 +44,10 @@ type Solver struct {
 }
 
 func NewSolver(name string, tb *TermTable, timeoutMs int) *Solver {
-	s := &Solver{Name: name, tb: tb, TimeoutMs: timeoutMs}
+	s := &Solver{Name: name, tb: tb, TimeoutMs: timeoutMs, CheckCmd: "(check-sat)"}
+	if c := os.Getenv("GOSYM_CHECKCMD"); c != "" {
+		s.CheckCmd = c
+	}
 	switch name {
 	case "z3":
 		s.argv = []string{"z3", "-in"}
@@ -74,11 +81,14 @@ func (s *Solver) start() {
 	s.defined = map[int]bool{}
 	s.ufDecl = map[string]bool{}
 	s.depth = 0
-	s.asserted = [][]*Term{nil}
+	s.stack = nil
+	s.pcLevel = false
 	if s.Name != "cvc5" {
 		s.send(fmt.Sprintf("(set-option :timeout %d)", s.TimeoutMs))
 		s.send("(set-option :model.completion true)")
+		s.send("(set-option :global-declarations true)")
 	} else {
+		s.send("(set-option :global-declarations true)")
 		s.send("(set-logic ALL)")
 	}
 }
@@ -152,30 +162,38 @@ func (s *Solver) define(t *Term) {
 	}
 }
 
-// Definitions must live at level 0 to survive pops: we only define while depth==0 or
-// re-define lazily: to keep it simple every definition is emitted before any push by
-// popping to 0 is not possible; instead we never use solver push for the path level —
-// the path condition is re-asserted per query inside one push/pop.
-
-// Check decides satisfiability of the conjunction of cs. When sat and wantModel, the
-// model for all variables in the term table is returned.
-func (s *Solver) Check(cs []*Term, wantModel bool) (Result, Model) {
+// Check decides satisfiability of pc ∧ extra. The path condition is kept asserted in the
+// solver, one push level per constraint, so that consecutive queries (and consecutive
+// sibling paths) only send what changed; declarations are global.
+func (s *Solver) Check(pc []*Term, extra []*Term, wantModel bool) (Result, Model) {
 	t0 := time.Now()
 	defer func() { s.SolverNs += time.Since(t0).Nanoseconds() }()
-	for _, c := range cs {
+	for _, c := range pc {
+		s.define(c)
+	}
+	for _, c := range extra {
 		s.define(c)
 	}
 	s.send("(push 1)")
-	for _, c := range cs {
+	for _, c := range pc {
 		s.send("(assert " + c.ref() + ")")
 	}
-	s.send("(check-sat)")
+	for _, c := range extra {
+		s.send("(assert " + c.ref() + ")")
+	}
+	s.send(s.CheckCmd)
 	res := s.readResult()
 	var m Model
 	if res == Sat && wantModel {
-		m = s.getModel(cs)
+		all := make([]*Term, 0, len(pc)+len(extra))
+		all = append(all, pc...)
+		all = append(all, extra...)
+		m = s.getModel(all)
 	}
-	s.send("(pop 1)")
+	if !s.restarted {
+		s.send("(pop 1)")
+	}
+	s.restarted = false
 	s.Queries[res]++
 	return res, m
 }
@@ -211,8 +229,7 @@ func (s *Solver) readResult() Result {
 			s.cmd.Process.Kill()
 			s.cmd.Wait()
 			s.start()
-			// the caller will send (pop 1) next; account for it
-			s.send("(push 1)")
+			s.restarted = true
 			return Unknown
 		}
 		switch l {
